@@ -1925,8 +1925,21 @@ func poolRunCloseScenario(t *testing.T, cfg poolCloseCfg, rep *vreport, rng *vrn
 			return poolGoroutines()["postProcess"] >= base["postProcess"]+cfg.Clients+1
 		})
 		time.Sleep(5 * time.Millisecond)
-		l.Close()
+		// Close in its own goroutine: should it need the table lock itself (a session already queued
+		// that it has to close), it can only finish after the harness lets go of its read lock
+		closedCh := make(chan struct{})
+		go func() { l.Close(); close(closedCh) }()
+		select {
+		case <-closedCh:
+		case <-time.After(100 * time.Millisecond):
+			rep.Distribution["dispatch_races_close_needed_the_table_lock"]++
+		}
 		l.sessionLock.RUnlock()
+		select {
+		case <-closedCh:
+		case <-time.After(5 * time.Second):
+			rep.violate("close-hang:Listener.Close", fmt.Sprintf("scenario %s: Listener.Close did not return within 5 s", cfg.Name), replay)
+		}
 		if !parked {
 			rep.Distribution["dispatch_races_close_not_parked"]++
 		}
